@@ -186,9 +186,10 @@ def check_pair_decomposition(case):
         np.all(np.sign(fdot[sel]) == np.sign(mean - delta[sel])),
         "a grain does not grow exactly when its strain energy is below the volume-weighted mean",
     )
-    # and against the reference energies (independent of the solver)
+    # and against the reference energies (independent of the solver); grains whose resolved
+    # slip is rounding noise (activity < 1e-9) have noise-level energies ~ eps^(p/n): no verdict
     Ebar = float(np.sum(x["f"] * E))
-    sel2 = (np.abs(Ebar - E) > 1e-8) & alive
+    sel2 = (np.abs(Ebar - E) > 1e-8) & alive & (cond["noslip"] == 0)
     require(
         np.all(np.sign(fdot[sel2]) == np.sign(Ebar - E[sel2])),
         "growth sign disagrees with the published strain energy (reference model)",
